@@ -415,6 +415,39 @@ class Session:
                       {'chi2s': [], 'report': {}, 'nan': False, 'was_fixed': [], 'tol': tol, 'isolated_fixed': [], 'exception': repr(ex)})
             return None
 
+    # ---- optimize() cut short by a failing user-defined edge (GraphSLAM!OptAbort) ----
+    def optimize_abort(self, max_iter, fix_first, k):
+        g = self.g
+        fault = [e for e in g._edges if getattr(e, 'is_fault', False)]
+        if not fault:
+            return self.optimize(max_iter, fix_first, False, 0.0, twin=False)      # (a graph without such an edge: an ordinary call)
+        fault = fault[0]
+        m = int(max_iter)
+        k = 1 + (int(k) - 1) % m
+        # independent observation: the states after 0 .. k-1 complete iterations (single-iteration calls on a deep copy, edge disarmed)
+        c = copy.deepcopy(g)
+        digs = []
+        with contextlib.redirect_stdout(io.StringIO()), warnings.catch_warnings():
+            warnings.simplefilter('ignore')
+            for j in range(k):
+                digs.append(pose_digests(c))
+                if j < k - 1:
+                    c.optimize(tol=0.0, max_iter=1, fix_first_pose=fix_first, verbose=False)
+        fault.budget, fault.calls = k - 1, 0
+        raised, exc = False, None
+        try:
+            with contextlib.redirect_stdout(io.StringIO()), warnings.catch_warnings():
+                warnings.simplefilter('ignore')
+                g.optimize(tol=0.0, max_iter=m, fix_first_pose=fix_first, verbose=False)
+        except Exception as ex:  # noqa
+            raised, exc = True, type(ex).__name__
+        finally:
+            fault.budget, fault.calls = None, 0
+        after = pose_digests(g)
+        applied = [j for j in range(k) if digs[j] == after]
+        self.emit({'op': 'OptAbort', 'maxIter': m, 'fixFirst': bool(fix_first), 'failAt': k, 'raised': raised, 'applied': applied[-1] if applied else -1},
+                  g._vertices, g._edges, {'exception': exc, 'nan': bool(any(np.any(np.isnan(np.asarray(v.pose))) for v in g._vertices))})
+
     @staticmethod
     def _str_report(ret):
         """str(OptimizationResult): one table row per complete iteration; header repeats converged / iterations."""
